@@ -14,8 +14,11 @@ def plan(tier):
             "bed_k0", "bed_k1", "bed_k2", "bed_k9", "bed_mixed_k", "bed_empty_aux",
             # columns containing double quotes (csv quoting): judged by parsed == written only
             "bed_quote_first", "bed_quote_inner", "gff_quote_columns",
+            # file based API (to_file / from_file): rewriting a path with a shorter list; %XX-like values
+            "bed_file_rewrite_shorter", "gff_file_rewrite_shorter", "gff_percent_escape_like_value",
         ],
-        "rule": "one run = one file: records -> real writer -> bytes -> real reader (exact), then the same bytes "
+        "rule": "file histories: Writer::to_file / Reader::from_file on one path, R1, shorter R2, empty, longer R4, each "
+                "read back (state of a path = records last written); one run = one file: records -> real writer -> bytes -> real reader (exact), then the same bytes "
                 "under two modelled faults and one arbitrary-byte fault; plus every attribute column over a "
                 "7-symbol alphabet (a ' \" = ; , space) up to length 4 and a rotating third of length 5 (thorough: "
                 "all up to length 6) per dialect",
